@@ -272,6 +272,72 @@ class InstancesPart(Part):
         return res
 
 
+class GeneratedSaltPart(Part):
+    name = "keyed_by_the_salt_in_use"
+    desc = "no salt given: AS replacements are keyed by the generated salt that is reported (not by a constant)"
+
+    def __init__(self, tier, seed):
+        self.tier, self.seed = tier, seed
+
+    def cases(self):
+        return [{"entry": e, "k": k} for e in ("FileAnonymizer", "main") for k in range(3)]
+
+    def run(self, case):
+        import io
+        import os
+        import random
+        import shutil
+
+        res = Res()
+        nums = ["65001", "64512", "12", "4200000000"]
+        text = "".join("router bgp %s\n" % n for n in nums)
+        real_choice = random.choice
+        calls = {"n": 0}
+
+        def scripted(seq):
+            calls["n"] += 1
+            return seq[(calls["n"] * (7 + 4 * case["k"]) + self.seed) % len(seq)]
+
+        random.choice = scripted
+        root = seams.scratch_dir("c11g")
+        try:
+            with seams.capture_logs(30) as recs, seams.capture_stdio():
+                if case["entry"] == "main":
+                    from netconan.netconan import main
+
+                    seams.write_tree(os.path.join(root, "in"), {"a.cfg": text})
+                    main(["-i", os.path.join(root, "in"), "-o", os.path.join(root, "out"), "-n", ",".join(nums)])
+                    out = open(os.path.join(root, "out", "a.cfg")).read()
+                else:
+                    from netconan.anonymize_files import FileAnonymizer
+
+                    fa = FileAnonymizer(anon_pwd=False, anon_ip=False, as_numbers=list(nums))
+                    buf = io.StringIO()
+                    fa.anonymize_io(io.StringIO(text), buf)
+                    out = buf.getvalue()
+        finally:
+            random.choice = real_choice
+            shutil.rmtree(root, ignore_errors=True)
+        got = [ln.split()[-1] for ln in out.splitlines()]
+        cands = []
+        for lvl, msg, _ in recs:
+            cands += re.findall(r'"([^"]*)"', msg) + [t.strip("\"'.,:;()") for t in msg.split()]
+        ok = None
+        for c in dict.fromkeys(x for x in cands if x):
+            if [make([n], c).anonymize(n) for n in nums] == got:
+                ok = c
+                break
+        res.evals += 1
+        res.nt((case["entry"], case["k"], ok))
+        res.out(tuple(got))
+        if ok is None:
+            res.violation("as-replacement-not-keyed-by-reported-salt|" + case["entry"],
+                          "no salt given; output %r; none of the %d strings reported at WARNING or above "
+                          "reproduces it as salt (records %r)" % (got, len(cands), [r[1][:70] for r in recs][:2]), case)
+        res.samples.append({"entry": case["entry"], "reported_salt_found": ok is not None})
+        return res
+
+
 def anonymize_line(an, line):
     from netconan.sensitive_item_removal import anonymize_as_numbers
 
@@ -279,4 +345,5 @@ def anonymize_line(an, line):
 
 
 def parts(tier, seed):
-    return [RangePart(tier, seed), RealMd5Part(tier, seed), TokenPart(tier, seed), InstancesPart(tier, seed)]
+    return [RangePart(tier, seed), RealMd5Part(tier, seed), TokenPart(tier, seed), InstancesPart(tier, seed),
+            GeneratedSaltPart(tier, seed)]
